@@ -11,7 +11,7 @@ KANI = [{
         K("time_size_contract", "contract", "all i64 seconds x all i32 offsets x both signs (function contract placed on the real Time::size, proof_for_contract)"),
         K("time_write_offset_111h", "bounded", "every offset in (-400000 s, +400000 s) = +-111 h, both signs, seconds = -10", mem_gb=24) | {"args": ["--solver", "kissat"]},
         K("time_write_offset_m10", "bounded", "EVERY i32 offset and both signs, seconds = -10", mem_gb=24, tier="thorough"),
-        K("time_write_offset_big", "bounded", "EVERY i32 offset and both signs, seconds = 10^18", tier="thorough", mem_gb=24),
+        K("time_write_offset_big", "bounded", "EVERY i32 offset and both signs, seconds = 10^18", tier="off", mem_gb=24),
         K("time_write_seconds_0", "bounded", "44 digit-count boundary values of seconds (0, +-10^k, +-10^k-1, i64::MIN/MAX), offset 0, both signs"),
         K("time_write_seconds_p", "bounded", "44 boundary values of seconds, offset +0530, both signs"),
         K("time_write_seconds_m", "bounded", "44 boundary values of seconds, offset -0930, both signs", tier="thorough"),
